@@ -188,7 +188,7 @@ def gen_cfg(rng, quick, force=None):
         for _ in range(int(rng.choice([1, 2], p=[0.8, 0.2]))):
             t = str(rng.choice(['step', 'linear', 'bounded', 'function', 'data', 'single']))
             v1, v2 = float(rng.uniform(0, cap)), float(rng.uniform(0, cap))
-            if rng.random() < 0.15:
+            if rng.random() < 0.25:
                 v1 = 0.0
             if t == 'step':
                 steps.append(['step', v1, v2, float(zlim[0] + span * rng.uniform(0.1, 0.9))])
@@ -248,8 +248,78 @@ def gen_cfg(rng, quick, force=None):
            'maxDtFrac': float(rng.choice([1.0, 0.3, 0.1])),
            'nsteps': [int(rng.integers(1, 7)) for _ in range(int(rng.choice([1, 2, 3], p=[0.35, 0.45, 0.2])))]}
     cfg.update({k: v for k, v in force.items() if k in cfg})
+    # constraints edited after construction (the usual way: m.constraints.minComposition = ...)
+    cfg['minc_post'] = None
+    if rng.random() < 0.35:
+        cfg['minc_post'] = float(rng.choice([v for v in (1e-6, 1e-4, 1e-3) if v != minc]))
     fill_scales(cfg, rng)
+    gen_changes(cfg, rng)
+    fam = force.get('family')
+    if fam:
+        apply_family(cfg, fam, rng)
     return cfg
+
+
+def draw_bc(rng, cap, jmag):
+    r = rng.random()
+    if r < 0.4:
+        return ['flux', 0.0]
+    if r < 0.7:
+        return ['flux', float(jmag * 10 ** rng.uniform(-2, 0.3) * rng.choice([-1, 1]))]
+    return ['comp', float(rng.uniform(0, cap))]
+
+
+def gen_changes(cfg, rng):
+    """what the user edits between consecutive solve calls: boundary conditions (type and value, per element
+    and side) and constraints"""
+    cap = 0.9 / cfg['ne']
+    changes = []
+    for k in range(1, len(cfg['calls'])):
+        if rng.random() < 0.65:
+            ch = {'bc': {}, 'minc': None, 'api': str(rng.choice(['setBC', 'side']))}
+            for e in cfg['elements'][1:]:
+                for side in ('L', 'R'):
+                    if rng.random() < 0.5:
+                        ch['bc'].setdefault(e, {})[side] = draw_bc(rng, cap, cfg.get('jmag', 1e-12))
+            if rng.random() < 0.45:
+                ch['minc'] = float(rng.choice([1e-8, 1e-6, 1e-4, 1e-3]))
+            changes.append(ch)
+        else:
+            changes.append(None)
+    cfg['changes'] = changes
+
+
+def apply_family(cfg, fam, rng):
+    """targeted histories (still randomised): every run contains a few of each"""
+    els = cfg['elements'][1:]
+    e = els[0]
+    jm = cfg.get('jmag', 1e-12)
+    if len(cfg['calls']) < 2:
+        cfg['calls'] = [cfg['calls'][0], cfg['calls'][0]]
+        cfg['nsteps'] = [cfg['nsteps'][0], cfg['nsteps'][0]]
+    cfg['changes'] = [None] * (len(cfg['calls']) - 1)
+    if fam == 'bc_switch':
+        # a composition condition at setup, replaced by a (zero or non-zero) flux condition before a later call
+        side = str(rng.choice(['L', 'R']))
+        cfg['bc'][e][side] = ['comp', float(rng.uniform(0.05, 0.9 / cfg['ne']))]
+        k = int(rng.integers(0, len(cfg['changes'])))
+        cfg['changes'][k] = {'bc': {e: {side: ['flux', 0.0] if rng.random() < 0.5 else ['flux', float(jm * rng.uniform(0.1, 1) * rng.choice([-1, 1]))]}},
+                             'minc': None, 'api': str(rng.choice(['setBC', 'side']))}
+    elif fam == 'min_raised_between':
+        # an absent component (profile value 0 -> nodes at the minimum), minimum raised before a later call
+        zmid = 0.5 * (cfg['zlim'][0] + cfg['zlim'][1])
+        cfg['profiles'][e] = [['step', 0.0, float(rng.uniform(0.1, 0.9 / cfg['ne'])), zmid]]
+        cfg['minc'], cfg['minc_post'] = 1e-8, None
+        k = int(rng.integers(0, len(cfg['changes'])))
+        cfg['changes'][k] = {'bc': {}, 'minc': float(rng.choice([1e-5, 1e-4, 1e-3])), 'api': 'setBC'}
+    elif fam == 'min_raised_after_ctor':
+        # minimum raised after construction; a trace component with an outward flux is pushed below it
+        zmid = 0.5 * (cfg['zlim'][0] + cfg['zlim'][1])
+        cfg['profiles'][e] = [['step', 0.0, float(rng.uniform(0.1, 0.9 / cfg['ne'])), zmid]]
+        cfg['minc'], cfg['minc_post'] = 1e-8, float(rng.choice([1e-5, 1e-4, 1e-3]))
+        cfg['bc'][e]['L'] = ['flux', -abs(float(jm * rng.uniform(0.2, 2)))]        # negative left flux = outflow
+        if cfg['api'] == 'ctor':
+            cfg['api'] = 'setBC'
 
 
 def fill_scales(cfg, rng):
@@ -276,6 +346,7 @@ def fill_scales(cfg, rng):
                 b[1] = float(jmag * 10 ** rng.uniform(-2, 0.3) * rng.choice([-1, 1]))
                 del b[2]
     cfg['calls'] = [float(dt0 * n * rng.uniform(0.6, 1.0)) for n in cfg['nsteps']]
+    cfg['jmag'] = jmag
 
 
 def build_model(cfg):
@@ -328,6 +399,8 @@ def build_model(cfg):
                 boundaryConditions=bcobj, compositionProfile=cp, constraints=cons, homogenizationParameters=hp)
         m.hashTable = ScriptedTable(ne + 1, cfg['stub']['scale'], cfg['stub']['skew'])
     m.fluxlog = []
+    if cfg.get('minc_post') is not None:
+        m.constraints.minComposition = cfg['minc_post']
     if cfg['api'] in ('setBC', 'setBC_none'):
         for e in els[1:]:
             l, r = cfg['bc'][e]['L'], cfg['bc'][e]['R']
@@ -338,9 +411,28 @@ def build_model(cfg):
     return m, None
 
 
+def apply_change(m, cfg, ch, bc_now):
+    """edit boundary conditions / constraints of a model that has already been solved, through the public API"""
+    from kawin.diffusion.DiffusionParameters import BoundaryConditions as B
+    code = {'flux': B.FLUX_BC, 'comp': B.COMPOSITION_BC}
+    for e, sides in (ch.get('bc') or {}).items():
+        for side, b in sides.items():
+            bc_now[e][side] = list(b)
+        l, r = bc_now[e]['L'], bc_now[e]['R']
+        if cfg['api'] == 'setBC_none':
+            m.setBC(code[l[0]], l[1], code[r[0]], r[1])
+        elif ch.get('api') == 'side':
+            for side, b in sides.items():
+                m.boundaryConditions.setBoundaryCondition(B.LEFT if side == 'L' else B.RIGHT, code[b[0]], b[1], e)
+        else:
+            m.setBC(code[l[0]], l[1], code[r[0]], r[1], element=e)
+    if ch.get('minc') is not None:
+        m.constraints.minComposition = ch['minc']
+
+
 def run_cfg(cfg):
     """runs the configuration on the repository code; returns the model and the logs"""
-    rec = {'err': None, 'calls': [], 'setup_x': None}
+    rec = {'err': None, 'calls': [], 'setup_x': None, 'env': []}
     m = obs = it = None
     try:
         m, _ = build_model(cfg)
@@ -350,12 +442,23 @@ def run_cfg(cfg):
         if cfg['explicit_setup']:
             m.setup()
             rec['setup_x'] = np.array(m.x, copy=True)
-        for simTime in cfg['calls']:
+        bc_now = copy.deepcopy(cfg['bc'])
+        changes = cfg.get('changes') or []
+        for k, simTime in enumerate(cfg['calls']):
+            ch = changes[k - 1] if 0 < k <= len(changes) else None
+            if ch:
+                apply_change(m, cfg, ch, bc_now)
             n0 = len(it.log)
-            m.solve(simTime, solverType=it, maxDtFrac=cfg['maxDtFrac'])
-            rec['calls'].append((n0, len(it.log)))
+            rec['env'].append({'bc': copy.deepcopy(bc_now), 'minc': float(m.constraints.minComposition), 'bcs_term': None})
+            try:
+                m.solve(simTime, solverType=it, maxDtFrac=cfg['maxDtFrac'])
+            finally:
+                rec['calls'].append((n0, len(it.log)))
+                try:
+                    rec['env'][-1]['bcs_term'] = bcs_term(m)       # the tables the code held during this call
+                except Exception:
+                    pass
     except StopRun:
-        rec['calls'].append((n0, len(it.log)))
         rec['truncated'] = True
     except Exception as e:
         rec['err'] = '%s: %s' % (type(e).__name__, e)
@@ -388,10 +491,22 @@ def oracle(cfg, rec):
         return [('no_internal_error', 'exception', 'run raised ' + rec['err'])]
     m, obs, it = rec['model'], rec['obs'], rec['it']
     els = cfg['elements'][1:]
-    minc = cfg['minc']
-    hi = 1 - minc
     nall = len(cfg['elements'])
     dz = float(m.dz)
+    # boundary conditions and constraints in force during each solve call (what the user asked for, live values)
+    env = rec.get('env') or []
+    minc0 = cfg['minc_post'] if cfg.get('minc_post') is not None else cfg['minc']
+
+    def env_of(k):
+        if k < len(env):
+            return env[k]['bc'], env[k]['minc']
+        return cfg['bc'], minc0
+    call_of = {}
+    for k, (a, b) in enumerate(rec['calls']):
+        for g in range(a, b):
+            call_of[g] = k
+    minc, hi = env_of(0)[1], 1 - env_of(0)[1]
+    ref = {}                 # (element index, node index) -> value a fixed-composition node has to keep
     dflt = ':default-element' if cfg['api'] == 'setBC_none' else ''
     steps = it.log
     if len(obs.log) != len(steps):
@@ -411,7 +526,7 @@ def oracle(cfg, rec):
         d = float(np.max(np.abs(x_first - x_start)))
         add('multi_solve_no_drift', 'state changed between solve calls',
             'profile after setup() differs from the profile the following solve() starts from (max change %.3e)' % d)
-    if np.any(x_start < minc) or np.any(x_start > hi):
+    if np.any(x_start < minc0) or np.any(x_start > 1 - minc0):
         add('bounds', 'initial', 'composition outside [min, 1-min] after setup: min %.3e max %.17g' % (float(x_start.min()), float(x_start.max())))
     for g, st in enumerate(steps):
         X0 = st['X0'].reshape(len(els), -1)
@@ -419,6 +534,20 @@ def oracle(cfg, rec):
         post = obs.log[g][1]
         dt = st['dt']
         stages = [m.fluxlog[i][2] for i in range(*st['calls'])]
+        kcall = call_of.get(g, 0)
+        bcs, minc = env_of(kcall)
+        hi = 1 - minc
+        changed = ' (boundary conditions / constraints were edited before solve call %d)' % (kcall + 1) if kcall > 0 and (cfg.get('changes') or [None] * kcall)[kcall - 1] else ''
+        if g in first_of_call:
+            # a composition condition keeps the node where it is when the call starts; one that was in force at
+            # setup keeps the value setup installed
+            for ei, e in enumerate(els):
+                for idx, sd in ((0, 'L'), (-1, 'R')):
+                    if bcs[e][sd][0] == 'comp':
+                        if (ei, idx) not in ref:
+                            ref[(ei, idx)] = float(x_start[ei, idx]) if kcall == 0 else float(X0[ei, idx])
+                    else:
+                        ref.pop((ei, idx), None)
         if not (np.all(np.isfinite(Xn)) and np.all(np.isfinite(post))):
             add('no_internal_error', 'non-finite', 'non-finite composition at step %d' % g)
             continue
@@ -436,7 +565,7 @@ def oracle(cfg, rec):
             add('no_internal_error', 'bookkeeping', 'step %d evaluated the fluxes %d times' % (g, len(stages)))
             continue
         for ei, e in enumerate(els):
-            bl, br = cfg['bc'][e]['L'], cfg['bc'][e]['R']
+            bl, br = bcs[e]['L'], bcs[e]['R']
             JL = Fraction(bl[1]) if bl[0] == 'flux' else sum(wk * Fraction(float(s[ei, 0])) for wk, s in zip(w, stages))
             JR = Fraction(br[1]) if br[0] == 'flux' else sum(wk * Fraction(float(s[ei, -1])) for wk, s in zip(w, stages))
             lhs = fsum_exact(Xn[ei]) - fsum_exact(X0[ei])
@@ -446,21 +575,27 @@ def oracle(cfg, rec):
             if abs(lhs - rhs) > TOL * scale:
                 side = 'prescribed' if (bl[0] == 'flux' and br[0] == 'flux') else 'mixed'
                 add('step_balance', side + dflt,
-                    'element %s, step %d (%s): mesh sum changed by %.6e, (left flux - right flux)*dt/dz = %.6e (left %s %.3e, right %s %.3e)'
-                    % (e, g, cfg['iterator'], float(lhs), float(rhs), bl[0], float(JL), br[0], float(JR)))
+                    'element %s, step %d (%s): mesh sum changed by %.6e, (left flux - right flux)*dt/dz = %.6e (left %s %.3e, right %s %.3e)%s'
+                    % (e, g, cfg['iterator'], float(lhs), float(rhs), bl[0], float(JL), br[0], float(JR), changed))
             # fixed-composition nodes
             for side, idx, b in (('left', 0, bl), ('right', -1, br)):
                 if b[0] == 'comp':
-                    want = expected_node(b[1], nall, minc)
-                    if abs(x_start[ei, idx] - want) > 1e-12:
+                    want = expected_node(b[1], nall, minc0)
+                    if kcall == 0 and abs(x_start[ei, idx] - want) > 1e-12:
                         add('dirichlet_node_fixed', side + ' initial' + dflt,
                             'element %s: %s node starts at %.10g, prescribed composition %.10g (setup rule gives %.10g)' % (e, side, x_start[ei, idx], b[1], want))
-                    elif post[ei, idx] != x_start[ei, idx]:
-                        add('dirichlet_node_fixed', side + dflt,
-                            'element %s: %s node prescribed %.10g started at %.17g, is %.17g after step %d' % (e, side, b[1], x_start[ei, idx], post[ei, idx], g))
+                    else:
+                        # the bounds take precedence over a held value that a raised minimum has overtaken
+                        keep = min(max(ref[(ei, idx)], minc), hi)
+                        if post[ei, idx] != keep:
+                            add('dirichlet_node_fixed', side + dflt,
+                                'element %s: %s node holds a prescribed composition (%.10g) and was at %.17g, is %.17g after step %d%s'
+                                % (e, side, b[1], ref[(ei, idx)], post[ei, idx], g, changed))
+                        ref[(ei, idx)] = keep
         # bounds and clip
         if np.any(post < minc) or np.any(post > hi):
-            add('bounds', 'range', 'composition outside [min, 1-min] after step %d: min %.3e max %.17g' % (g, float(post.min()), float(post.max())))
+            add('bounds', 'range', 'composition outside [min, 1-min] = [%.3e, 1-%.3e] (live constraints.minComposition) after step %d: min %.6e max %.17g%s'
+                % (minc, minc, g, float(post.min()), float(post.max()), changed))
         inside = (Xn >= minc) & (Xn <= hi)
         if np.any(post[inside] != Xn[inside]):
             add('clip_changes_only_outside', 'inside changed', 'postProcess changed an entry inside [min, 1-min] at step %d' % g)
@@ -511,6 +646,15 @@ def bcs_term(m):
     return '[' + '; '.join(parts) + ']'
 
 
+def live_env(rec, g):
+    """(boundary-condition tables, minComposition) the code held during the solve call that step g belongs to"""
+    m = rec['model']
+    for k, (a, b) in enumerate(rec['calls']):
+        if a <= g < b and k < len(rec.get('env') or []) and rec['env'][k]['bcs_term']:
+            return rec['env'][k]['bcs_term'], rec['env'][k]['minc']
+    return bcs_term(m), float(m.constraints.minComposition)
+
+
 def step_term(cfg, rec, g):
     m, it, obs = rec['model'], rec['it'], rec['obs']
     st = it.log[g]
@@ -519,20 +663,21 @@ def step_term(cfg, rec, g):
     stages = qmats([c[2][:, 1:-1] for c in calls])
     stage_x = qmats([c[1] for c in calls[1:]])
     return 'check_step %s %s %s %s %s %s %s %s %s %s' % (
-        RT, bcs_term(m), fq(m.dz), fq(cfg['minc']), fq(st['dt']), qmat(st['X0'].reshape(ne, -1)), stages, stage_x,
+        RT, live_env(rec, g)[0], fq(m.dz), fq(live_env(rec, g)[1]), fq(st['dt']), qmat(st['X0'].reshape(ne, -1)), stages, stage_x,
         qmat(st['Xn'].reshape(ne, -1)), qmat(obs.log[g][1]))
 
 
-def flux_term(cfg, rec, i):
-    """model of _getFluxes for logged call i"""
+def flux_term(cfg, rec, i, g=None):
+    """model of _getFluxes for logged call i (made during step g)"""
     m = rec['model']
     t, x, fl = m.fluxlog[i]
+    bt = live_env(rec, g)[0] if g is not None else bcs_term(m)
     T = np.asarray(m.temperatureParameters(m.z, t), dtype=float)
     if cfg['kind'] == 'sp':
         d = [m.therm.getInterdiffusivity(x[:, k], T[k], phase=m.phases[0]) for k in range(m.N)]
         if len(m.elements) == 1:
-            return 'check_sp_binary %s %s %s %s %s %s' % (RT, bcs_term(m), fq(m.dz), fvec(d), qmat(x), qmat(fl))
-        return 'check_sp_multi %s %s %s %s %s %s' % (RT, bcs_term(m), fq(m.dz), qmats(d), qmat(x), qmat(fl))
+            return 'check_sp_binary %s %s %s %s %s %s' % (RT, bt, fq(m.dz), fvec(d), qmat(x), qmat(fl))
+        return 'check_sp_multi %s %s %s %s %s %s' % (RT, bt, fq(m.dz), qmats(d), qmat(x), qmat(fl))
     from kawin.diffusion.HomogenizationParameters import computeHomogenizationFunction
     from kawin.thermo.Mobility import interstitials
     from kawin.Constants import GAS_CONSTANT
@@ -544,7 +689,7 @@ def flux_term(cfg, rec, i):
     mface = np.exp(0.5 * (lm[:, 1:] + lm[:, :-1]))        # the one transcendental line of _getFluxes: oracle values
     subst = '[' + '; '.join(boollit(e not in interstitials) for e in m.allElements) + ']'
     return 'check_hom %s %s %s %s %s %s %s %s %s %s %s' % (
-        RT, bcs_term(m), fq(m.dz), fq(m.homogenizationParameters.eps), fq(GAS_CONSTANT), subst,
+        RT, bt, fq(m.dz), fq(m.homogenizationParameters.eps), fq(GAS_CONSTANT), subst,
         qmat(mface), qmat(mu), fvec(T), qmat(x), qmat(fl))
 
 
@@ -617,7 +762,7 @@ def setup_case(cfg):
         x2 = np.array(m.x, copy=True)
     except Exception as e:
         return None
-    return 'check_setup %s %s %s %s %s %s %s' % (RT, bcs_term(m), zlit(len(m.allElements)), fq(cfg['minc']), qmat(built), qmat(x1), qmat(x2))
+    return 'check_setup %s %s %s %s %s %s %s' % (RT, bcs_term(m), zlit(len(m.allElements)), fq(m.constraints.minComposition), qmat(built), qmat(x1), qmat(x2))
 
 
 # ------------------------------------------------------------------------------------------
@@ -632,10 +777,28 @@ def simplify_candidates(cfg):
     for n in (2, 3, 5, 8):
         if n < cfg['N']:
             out.append(var(N=n))
+    chg = cfg.get('changes') or []
     if len(cfg['calls']) > 2:
-        out.append(var(calls=cfg['calls'][:2], nsteps=cfg['nsteps'][:2]))
+        out.append(var(calls=cfg['calls'][:2], nsteps=cfg['nsteps'][:2], changes=chg[:1]))
+        out.append(var(calls=cfg['calls'][1:], nsteps=cfg['nsteps'][1:], changes=chg[1:]))
     if len(cfg['calls']) > 1:
-        out.append(var(calls=cfg['calls'][:1], nsteps=cfg['nsteps'][:1]))
+        out.append(var(calls=cfg['calls'][:1], nsteps=cfg['nsteps'][:1], changes=[]))
+    for k, ch in enumerate(chg):
+        if ch:
+            out.append(var(changes=chg[:k] + [None] + chg[k + 1:]))
+            if ch.get('minc') is not None and ch.get('bc'):
+                out.append(var(changes=chg[:k] + [dict(ch, minc=None)] + chg[k + 1:]))
+                out.append(var(changes=chg[:k] + [dict(ch, bc={})] + chg[k + 1:]))
+            for e in list((ch.get('bc') or {})):
+                for side in list(ch['bc'][e]):
+                    c2 = copy.deepcopy(ch)
+                    del c2['bc'][e][side]
+                    if not c2['bc'][e]:
+                        del c2['bc'][e]
+                    if c2['bc'] or c2.get('minc') is not None:
+                        out.append(var(changes=chg[:k] + [c2] + chg[k + 1:]))
+    if cfg.get('minc_post') is not None:
+        out.append(var(minc_post=None))
     if cfg['iterator'] != 'euler':
         out.append(var(iterator='euler'))
     if cfg['T'][0] != 'iso':
@@ -757,8 +920,16 @@ def real_runs(ctx, hits, quick):
             m.setup()
             rec['setup_x'] = np.array(m.x, copy=True)
             _, dt0 = m.getFluxes()
+            rec['env'] = []
+            bc_now = copy.deepcopy(cfg['bc'])
             for k in (2, 2):
+                if rec['calls']:
+                    # the held left node of CR is released: closed boundary from now on
+                    m.setBC(B.FLUX_BC, 0.0, B.FLUX_BC, 0.0, element='CR')
+                    bc_now['CR']['L'] = ['flux', 0.0]
+                    cfg['changes'] = [{'bc': {'CR': {'L': ['flux', 0.0]}}, 'minc': None, 'api': 'setBC'}]
                 n0 = len(it.log)
+                rec['env'].append({'bc': copy.deepcopy(bc_now), 'minc': float(m.constraints.minComposition), 'bcs_term': None})
                 m.solve(float(dt0) * k * 0.9, solverType=it)
                 rec['calls'].append((n0, len(it.log)))
         except Exception as e:
@@ -779,6 +950,8 @@ def run(ctx):
                        '(scripted two-phase mobility table driving the five homogenisation functions), 1-3 independent elements, 2..24 nodes (quick) / 2..80 '
                        '(thorough), profile builders step/linear/bounded/single/function/data (also stacked), isothermal / time table / T(z,t) field, every mix of '
                        'flux (zero and non-zero) and composition conditions per element and side set through the constructor, setBC(element=..) or setBC() '
+                       'default element, boundary conditions (type and value) and constraints.minComposition edited between consecutive solve calls and after construction (the oracle '
+                       'uses the conditions and the live constraint values in force during each call), '
                        'default element, Euler / RK4, 1-3 consecutive solve calls with or without an explicit setup(), minComposition 1e-8/1e-6/1e-4; a case is '
                        'non-trivial when the profile is not flat or a boundary flux is non-zero; distinct by hash of the configuration / of the exact arrays')
     import time as _time
@@ -792,7 +965,9 @@ def run(ctx):
 
     # ---- runs: corpus first, then generated -------------------------------------------------
     ncfg = 60 if quick else 300
-    cfgs = corpus_cfgs() + [gen_cfg(ctx.rng, quick) for _ in range(ncfg)]
+    nfam = 2 if quick else 12
+    fams = [gen_cfg(ctx.rng, quick, {'family': f}) for f in ('bc_switch', 'min_raised_between', 'min_raised_after_ctor') for _ in range(nfam)]
+    cfgs = corpus_cfgs() + fams + [gen_cfg(ctx.rng, quick) for _ in range(ncfg - len(fams))]
     terms, meta = [], []
     step_budget = 2 if quick else 4
     for ci, cfg in enumerate(cfgs):
@@ -811,6 +986,10 @@ def run(ctx):
         ctx.hist('solve_calls', len(cfg['calls']))
         ctx.hist('temperature', cfg['T'][0])
         ctx.hist('bc_api', cfg['api'])
+        chs = [c for c in (cfg.get('changes') or []) if c]
+        ctx.hist('edited_between_calls', 'bc+min' if any(c.get('bc') for c in chs) and any(c.get('minc') is not None for c in chs)
+                 else 'bc' if any(c.get('bc') for c in chs) else 'min' if chs else 'nothing')
+        ctx.hist('min_edited_after_construction', cfg.get('minc_post') is not None)
         for e in cfg['bc']:
             ctx.hist('bc_mix', cfg['bc'][e]['L'][0] + ('0' if cfg['bc'][e]['L'][1] == 0.0 else '') + '/' + cfg['bc'][e]['R'][0] + ('0' if cfg['bc'][e]['R'][1] == 0.0 else ''))
             for st in cfg['profiles'][e]:
@@ -830,7 +1009,7 @@ def run(ctx):
                 terms.append(step_term(cfg, rec, g))
                 meta.append(('step', key, g))
                 i0 = rec['it'].log[g]['calls'][0]
-                terms.append(flux_term(cfg, rec, i0))
+                terms.append(flux_term(cfg, rec, i0, g))
                 meta.append(('fluxes', key, i0))
         if ci < 2:
             ctx.sample({'configuration': key, 'steps': len(rec['it'].log) if rec['it'] else 0,
@@ -940,7 +1119,7 @@ def corr_for_cfg(ctx, cfg, limit=12):
         for g in range(min(limit, len(rec['it'].log))):
             terms.append(step_term(cfg, rec, g))
             names.append('step %d' % g)
-            terms.append(flux_term(cfg, rec, rec['it'].log[g]['calls'][0]))
+            terms.append(flux_term(cfg, rec, rec['it'].log[g]['calls'][0], g))
             names.append('_getFluxes at step %d' % g)
     t = setup_case(cfg)
     if t:
